@@ -30,8 +30,10 @@ ObsOK(o) ==
   /\ Len(o.wrote) = Len(wire')
   /\ \A i \in 1..Len(wire') : SameSetconf(o.wrote[i], ConcPairs(wire'[i]))
   /\ phase' = "attached" =>
-       /\ \A x \in Options : o.view[x] = ConcSeq(x, view'[x])
-       /\ \A x \in Options : o.shape[x] = "ok"
+       \* o.skipview: options whose view is not compared at this step (a bare string was assigned to a list-valued port
+       \* option and saved: until Tor's announcement of that save arrives the code shows the bare string)
+       /\ \A x \in Options : x \notin SeqToSet(o.skipview) => o.view[x] = ConcSeq(x, view'[x])
+       /\ \A x \in Options : x \notin SeqToSet(o.skipview) => o.shape[x] = "ok"
        /\ o.pending = (pend' # <<>>)
   /\ ~o.exc
 
